@@ -45,6 +45,13 @@ let () =
          else begin
            let ((r, tr), outs) = run_script_open_extract (bytes_of_hex hex) faults in
            Printf.printf "%s|%s|%s\n" (String.concat "," (List.map (fun x -> string_of_int (int_of_n x)) r)) (pr_ev tr) (pr_outs outs) end
+     | "find", [salv; offs; hex] ->
+         let bytes = bytes_of_hex hex in
+         let truth = if offs = "-" then [] else ints offs in
+         let parse o = List.mem (int_of_n o) truth in
+         (match cab_find bytes parse (salv = "1") (nat_of_int (List.length bytes + 2)) N0 [] with
+          | Some l -> print_endline (String.concat "," (List.map (fun x -> string_of_int (int_of_n x)) l) ^ ".")
+          | None -> print_endline "nofuel")
      | "lzss", [mode; hex] -> Printf.printf "0 %s\n" (hex_of_bytes (lzss_spec (n_of_int (int_of_string mode)) (bytes_of_hex hex)))
      | _ -> print_endline "?");
     flush stdout
